@@ -517,6 +517,8 @@ func FunctionMap() map[string]physical.FunctionDetails {
 									r == ']' ||
 									r == '^' ||
 									r == '$' ||
+									r == '*' ||
+									r == '|' ||
 									r == '.'
 							}
 
@@ -527,7 +529,7 @@ func FunctionMap() map[string]physical.FunctionDetails {
 								}
 
 								var sb strings.Builder
-								sb.WriteRune('^') // match start
+								sb.WriteString("(?s)^") // match start; (?s): the wildcards also match a newline
 
 								escaping := false // was the character previously seen an escaping \
 
